@@ -1,6 +1,6 @@
 //! unit: u15i
 //! properties: C15
-//! note: (do_disconnect, whole: a dropped peer's disconnection reaches exactly the handlers that saw it connect - all five when its Init had been accepted, none otherwise) PeerManager::do_handle_message_holding_peer_lock, how the five message handlers are told about a peer whose Init was accepted (slice: from `let inbound = ..` to the statement that records the peer's features): they are asked in a fixed order (routing, channel, onion message, custom, send-only); when one refuses, every handler that had already accepted is told `peer_disconnected` - each exactly once, none that was not told `peer_connected` - and the connection is dropped; only when all five accept is the Init recorded. So no handler is ever left believing in a peer the manager dropped (a later connection of the same peer would then be a second `peer_connected` without a `peer_disconnected` in between - ChannelManager debug-asserts against that), and none hears of a disconnection it never saw connect
+//! note: (disconnect_event_internal, slice: the same rule when the socket went away; do_disconnect, whole: a dropped peer's disconnection reaches exactly the handlers that saw it connect - all five when its Init had been accepted, none otherwise) PeerManager::do_handle_message_holding_peer_lock, how the five message handlers are told about a peer whose Init was accepted (slice: from `let inbound = ..` to the statement that records the peer's features): they are asked in a fixed order (routing, channel, onion message, custom, send-only); when one refuses, every handler that had already accepted is told `peer_disconnected` - each exactly once, none that was not told `peer_connected` - and the connection is dropped; only when all five accept is the Init recorded. So no handler is ever left believing in a peer the manager dropped (a later connection of the same peer would then be a second `peer_connected` without a `peer_disconnected` in between - ChannelManager debug-asserts against that), and none hears of a disconnection it never saw connect
 //! trusted: R15 (deep slice): the statements between `let inbound = peer_lock.inbound_connection;` and `peer_lock.awaiting_pong_timer_tick_intervals = 0;`, verbatim; R5: every `.peer_connected(their_node_id, &msg, inbound)` / `.peer_disconnected(their_node_id)` call gets a log argument (the handlers are shared references with interior state in the source; here each is a stub with an identity that appends what it was told, and what it answered, to the log; the two facts used about a log - who believes the peer connected, whether every notification was in order - are proved for one appended entry by lemma_step and carried by thin verified wrappers); any handler may refuse (its answer is arbitrary); log statements dropped (R3)
 //! trusted: assume_specification for core::cmp::max / core::cmp::min (std definitions): present in every unit so that a change that introduces them is verified instead of being rejected by the tool
 use vstd::prelude::*;
@@ -98,6 +98,27 @@ impl PeerManager {
     self.message_handler.send_only_message_handler.peer_disconnected(node_id); } descriptor.disconnect_socket();
 //@with
     } descriptor.disconnect_socket();
+//@end
+// disconnect_event_internal (the socket went away): the same rule - the five handlers are told exactly when the peer's Init had been accepted
+//@extract lightning/src/ln/peer_handler.rs :: impl PeerManager :: fn disconnect_event_internal
+//@slice R15
+    debug_assert!($r:cond); if $c:cond { return; } $t1:seq; $t2:seq; $t3:seq; $t4:seq; $t5:seq; } }, };
+//@with
+    fn tell_the_handlers_the_socket_went_away(&self, peer: &DropPeer, node_id: PublicKey, __log: &mut Log) { if $c { return; } $t1; $t2; $t3; $t4; $t5; }
+//@rw * R5
+    .peer_disconnected(node_id)
+//@with
+    .peer_disconnected(node_id, __log)
+//@requires
+    believers(old(__log).l@) =~= (if peer.init_accepted { set![0int, 1, 2, 3, 4] } else { Set::<int>::empty() }), in_order(old(__log).l@),
+    self.message_handler.route_handler.who@ == 0, self.message_handler.chan_handler.who@ == 1, self.message_handler.onion_message_handler.who@ == 2, self.message_handler.custom_message_handler.who@ == 3, self.message_handler.send_only_message_handler.who@ == 4,
+//@ensures P C15 a-lost-connection-is-reported-to-exactly-the-handlers-that-saw-the-peer-connect
+    in_order(final(__log).l@) && believers(final(__log).l@) =~= Set::<int>::empty(),
+    !peer.init_accepted ==> final(__log).l@ == old(__log).l@,
+//@mutant handlers_told_of_a_peer_they_never_saw_connect
+    if !peer.handshake_complete() { return; }
+//@with
+    if false { return; }
 //@end
 }
 }
